@@ -75,6 +75,10 @@ pub trait Flavor<'de>: 'de {
             ct <= old(self).rem().len() ==> r is Ok && (r->Ok_0)@ == old(self).rem().subrange(0, ct as int)
                                             && final(self).rem() == old(self).rem().subrange(ct as int, old(self).rem().len() as int),
             ct > old(self).rem().len() ==> r == Err::<&[u8], Error>(Error::DeserializeUnexpectedEnd) && final(self).rem() == old(self).rem();
+    // a flavour that knows how much input is left says so exactly (Slice: proved by Kani C03.K.flavor.slice); others answer None
+    spec fn hint(&self) -> Option<usize>;
+    proof fn lemma_hint(&self) ensures self.hint() is Some ==> self.hint()->Some_0 == self.rem().len();
+    fn size_hint(&self) -> (r: Option<usize>) ensures r == self.hint();
 }
 
 // ANY visitor: on_X is whatever it answers when shown a value; for payload-carrying kinds its effect on the stream is a function of the stream
@@ -257,6 +261,13 @@ UNIT = dict(
         dict(kind="fn", file=F, within=[r"^impl<'a, 'b: 'a, F: Flavor<'b>> serde::de::SeqAccess<'b> for SeqAccess<'a, 'b, F>$"], name="next_element_seed",
              qual="postcard::de::deserializer::<impl serde::de::SeqAccess for SeqAccess<F>>::next_element_seed",
              sig=NEXT_SIG % dict(obl="C03.V.dekind.seq_next_element_seed"), obls=["C03.V.dekind.seq_next_element_seed"]),
+        dict(kind="fn", file=F, within=[r"^impl<'a, 'b: 'a, F: Flavor<'b>> serde::de::SeqAccess<'b> for SeqAccess<'a, 'b, F>$"], name="size_hint",
+             qual="postcard::de::deserializer::<impl serde::de::SeqAccess for SeqAccess<F>>::size_hint",
+             sig="""        ensures
+            old(self.deserializer).flavor.hint() is Some ==> (r is Some ==> r->Some_0 <= old(self.deserializer).flavor.rem().len()),   // @obl:C04.V.dekind.seq_size_hint
+            r is Some ==> r->Some_0 == self.len,   // @obl:C04.V.dekind.seq_size_hint""",
+             inserts=[("fn:start", "        proof { self.deserializer.flavor.lemma_hint(); }")],
+             obls=["C04.V.dekind.seq_size_hint"]),
         dict(kind="raw", name="<seqaccess-impl-close>", text="}\n"),
         dict(kind="raw", name="<mapaccess-impl-open>", text="impl<'a, 'b: 'a, F: Flavor<'b>> MapAccess<'a, 'b, F> {\n"),
         dict(kind="fn", file=F, within=[r"^impl<'a, 'b: 'a, F: Flavor<'b>> serde::de::MapAccess<'b> for MapAccess<'a, 'b, F>$"], name="next_key_seed",
